@@ -1,39 +1,37 @@
 #!/usr/bin/env python3
 """Write spec/MCResonaate_<name>.cfg for the exhaustive configurations of Resonaate.tla."""
 from pathlib import Path
-INV = """INVARIANT OneRecordPerTasking
-INVARIANT NoRecordWithoutTasking
-INVARIANT PointingReflectsTasking
-INVARIANT LastStepMissesOnly
-INVARIANT RowsExact
-INVARIANT StepResultIsCanonical
-INVARIANT OnlyVisibleTasked
-INVARIANT TruthAtClock
-INVARIANT EstimatesAtClock
-INVARIANT DbComplete
-INVARIANT DbNoDup
-INVARIANT DbRefs
-INVARIANT ObsRowsHaveEpoch
-"""
+INV = ["OneRecordPerTasking", "NoRecordWithoutTasking", "PointingReflectsTasking", "LastStepMissesOnly", "RowsExact",
+       "StepResultIsCanonical", "OnlyVisibleTasked", "TruthAtClock", "EstimatesAtClock", "DbComplete", "DbNoDup", "DbRefs",
+       "ExactlyOnceInstant", "DurationActiveExactly", "OnlyAddressee", "DvOnce", "NeverTwice", "BiasActiveExactly"]
+PROPS = ["NonInterference", "CommitAtomic"]
 def cfg(name, T, S, E="E1", ET="AllT", ES="AllS", pol="PolGreedy", nsteps=2, out=1, est=True, ser=False,
-        reset=False, squared=False, keep=False):
+        reset=False, squared=False, keep=False, prio_all=False, prune_eq=False, events="NoEvents", dt=1,
+        IT=None, IS=None, faults=False):
     B = lambda b: "TRUE" if b else "FALSE"
     txt = f"""SPECIFICATION Spec
 CONSTANTS
   Targets <- {T}
   Sensors <- {S}
+  InitTargets <- {IT or T}
+  InitSensors <- {IS or S}
   Engines <- {E}
   EngTargets <- {ET}
   EngSensors <- {ES}
   Policy <- {pol}
   NSteps = {nsteps}
+  Dt = {dt}
   OutEvery = {out}
+  Events <- {events}
   WithEstimation = {B(est)}
   WithSerendipity = {B(ser)}
+  WithFaults = {B(faults)}
   ResetChangesPerJob = {B(reset)}
   MissListSquared = {B(squared)}
   KeepMissedAcrossSteps = {B(keep)}
-""" + INV
+  PriorityToAllEngines = {B(prio_all)}
+  PruneKeepsEqual = {B(prune_eq)}
+""" + "".join(f"INVARIANT {i}\n" for i in INV) + "".join(f"PROPERTY {p}\n" for p in PROPS)
     Path(__file__).resolve().parent.parent.joinpath("spec", f"MCResonaate_{name}.cfg").write_text(txt)
 cfg("greedy22", "T2", "S2")
 cfg("munkres22", "T2", "S2", pol="PolMunkres")
@@ -44,7 +42,16 @@ cfg("greedy22_ser", "T2", "S2", ser=True, nsteps=1)
 cfg("munkres23", "T2", "S3", pol="PolMunkres", nsteps=1)
 cfg("greedy32", "T3", "S2", nsteps=1)
 cfg("random23", "T2", "S3", pol="PolRandom", nsteps=1)
-cfg("truthonly", "T2", "S2", est=False, nsteps=3, out=2)
+cfg("truthonly", "T2", "S2", est=False, nsteps=3, out=2, faults=True)
+cfg("faults", "T1", "S1", nsteps=3, out=2, faults=True)
 cfg("coded_reset", "T2", "S2", reset=True)
 cfg("coded_squared", "T2", "S2", squared=True)
 cfg("coded_keep", "T2", "S2", keep=True)
+# C01: events (Dt = 3 ticks, 3 steps); one config per impulse tick
+for t in range(1, 10):
+    cfg(f"ev_imp{t}", "T1", "S1", nsteps=3, dt=3, events=f"Imp{t}")
+cfg("ev_imppair", "T1", "S1", nsteps=3, dt=3, events="ImpPair")
+cfg("ev_addremove", "T2", "S2", IT="T1", nsteps=3, dt=3, events="AddRemove", out=2)
+cfg("ev_durations", "T2", "S2", E="E2", ET="SplitT", ES="SplitS", pol="PolMixed", nsteps=3, dt=3, events="Durations")
+cfg("coded_prune", "T1", "S1", nsteps=3, dt=3, events="Imp3", prune_eq=True)
+cfg("coded_prio", "T2", "S2", E="E2", pol="PolMixed", nsteps=3, dt=3, events="Durations", prio_all=True)
